@@ -1436,6 +1436,146 @@ func (d *reloadDrv) drainScenario(s *shimSim, emit func(map[string]interface{}))
 	}
 }
 
+// flipScenario: a configured parent with one or two configured leaf children (some holding applications) is turned into
+// a leaf by an update (no queues below it, parent flag not set): the recursion of updateQueues into it with the empty
+// child list has to mark the old children for removal. Afterwards applications are submitted that name an old child
+// (qualified, through a tag), a new queue below an old child, and the new leaf itself.
+func (d *reloadDrv) flipScenario(s *shimSim, emit func(map[string]interface{})) {
+	c := d.c
+	if d.core.s == nil || len(d.conf.Partitions) == 0 {
+		return
+	}
+	submit := func(q string, tags map[string]string) string {
+		id := fmt.Sprintf("app-%d", len(s.appList)+1)
+		op := map[string]interface{}{"op": "app-add", "id": id, "queue": q, "user": c.one(rlUsers), "groups": "dev"}
+		if tags != nil {
+			op["tags"] = tags
+		}
+		emit(op)
+		s.appList = append(s.appList, id)
+		s.apps[id] = true
+		return id
+	}
+	pickParent := func(conf *configs.SchedulerConfig) *qref {
+		var all []qref
+		collectQ(&conf.Partitions[0].Queues[0], "root", 0, nil, &all)
+		var cand []int
+		for i, r := range all {
+			if r.depth == 0 || len(r.q.Queues) == 0 || len(r.q.Queues) > 2 {
+				continue
+			}
+			ok := true
+			for _, ch := range r.q.Queues {
+				if ch.Parent || len(ch.Queues) > 0 {
+					ok = false
+				}
+			}
+			q := d.core.s.part.GetQueue(r.path)
+			if ok && q != nil && !q.IsLeafQueue() && !q.IsDraining() {
+				cand = append(cand, i)
+			}
+		}
+		if len(cand) == 0 {
+			return nil
+		}
+		r := all[cand[c.pick(len(cand))]]
+		return &r
+	}
+	if pickParent(d.conf) == nil {
+		// no such parent: an update adds root.team with one or two leaves
+		conf := cloneConf(d.conf)
+		root := &conf.Partitions[0].Queues[0]
+		if hasChild(root, "team") || d.core.s.part.GetQueue("root.team") != nil {
+			c.stat("flip-scenario:no-parent")
+			return
+		}
+		team := configs.QueueConfig{Name: "team", Parent: true, Queues: []configs.QueueConfig{c.rlLeaf("batch", 2)}}
+		if c.chance(0.5) {
+			team.Queues = append(team.Queues, c.rlLeaf("adhoc", 2))
+		}
+		if root.MaxApplications != 0 {
+			c.rlAllMaxApps(&team, 1)
+		}
+		root.Queues = append(root.Queues, team)
+		emit(map[string]interface{}{"op": "reload", "via": "direct", "conf": confToJSON(conf), "pad": d.pad, "kind": "flip-scenario-add"})
+		if d.core.s == nil {
+			return
+		}
+	}
+	par := pickParent(d.conf)
+	if par == nil {
+		c.stat("flip-scenario:no-parent")
+		return
+	}
+	parent := par.path
+	var children []string
+	for _, ch := range par.q.Queues {
+		children = append(children, parent+"."+strings.ToLower(ch.Name))
+	}
+	// applications in some of the children
+	for _, ch := range children {
+		if q := d.core.s.part.GetQueue(ch); q != nil && q.IsLeafQueue() && !q.IsDraining() && c.chance(0.5) {
+			submit(ch, nil)
+			if d.core.s == nil {
+				return
+			}
+		}
+	}
+	// the update: the parent is a leaf now
+	conf := cloneConf(d.conf)
+	p := &conf.Partitions[0]
+	var all []qref
+	collectQ(&p.Queues[0], "root", 0, nil, &all)
+	for _, r := range all {
+		if r.path == parent {
+			r.q.Parent = false
+			r.q.Queues = nil
+			r.q.ChildTemplate = configs.ChildTemplate{}
+		}
+	}
+	kind := c.pick(5)
+	switch kind {
+	case 0:
+		p.PlacementRules = nil
+	case 1:
+		p.PlacementRules = []configs.PlacementRule{{Name: "provided", Create: false}}
+	case 2:
+		p.PlacementRules = []configs.PlacementRule{{Name: "provided", Create: true}}
+	case 3:
+		p.PlacementRules = []configs.PlacementRule{{Name: "tag", Value: "namespace", Create: c.chance(0.5)}, {Name: "provided", Create: false}}
+	default:
+		p.PlacementRules = []configs.PlacementRule{{Name: "user", Create: false}, {Name: "provided", Create: true}}
+	}
+	via := "event"
+	if c.chance(0.3) {
+		via = "direct"
+	}
+	emit(map[string]interface{}{"op": "reload", "via": via, "conf": confToJSON(conf), "pad": d.pad, "kind": "flip-scenario"})
+	if d.core.s == nil {
+		return
+	}
+	if q := d.core.s.part.GetQueue(parent); q == nil || !q.IsLeafQueue() {
+		c.stat("flip-scenario:not-flipped")
+		return
+	}
+	c.stat("flip-scenario:flipped")
+	n := 2 + c.pick(3)
+	for i := 0; i < n && d.core.s != nil; i++ {
+		ch := c.one(children)
+		switch c.pick(5) {
+		case 0, 1:
+			submit(ch, nil)
+		case 2:
+			submit(c.one([]string{"", "root.nosuch"}), map[string]string{"namespace": ch})
+		case 3:
+			submit(ch+".new", nil)
+		default:
+			submit(parent, nil)
+		}
+		c.stat("flip-scenario:submission")
+	}
+}
+
 var rlDynQueues = []string{"root.dyn1", "root.b.dyn2", "root.c.dyn3", "root.c.sub.leaf", "root.e.e1.dyn4", "root.a.x", "root.dyn1.deep"}
 
 func reloadHistory(c *Ctx, d *reloadDrv) {
@@ -1568,6 +1708,8 @@ func reloadHistory(c *Ctx, d *reloadDrv) {
 			emit(map[string]interface{}{"op": "clean"})
 		case p < 79:
 			d.drainScenario(s, emit)
+		case p < 83:
+			d.flipScenario(s, emit)
 		default:
 			if c.chance(0.5) {
 				// a scheduling cycle right before the update: allocations and reservations are fresh
